@@ -245,6 +245,8 @@ def run(F, rep, tier, allfacts):
     rz = [[describe(f, a, depth=8) for a in args] for i, c, args, *_ in calls(f) if callee_matches(c, r"Vec.*::resize$")]
     hp = [describe(f, rv[1], depth=6) for i, j, p, rv, line in assignments(f) if p[1:] and isinstance(p[-1], list) and p[-1][0] == "f" and p[-1][2] == "hp" and rv[0] == "use"]
     cps = call_blocks(f, r"copy_from_slice$")
+    for cn_, cf_ in F.find("^" + re.escape(n) + r"::\{closure#\d+\}$", ["fuel_vm"], required=False):     # loops written as for_each closures
+        cps = cps + call_blocks(cf_, r"copy_from_slice$")
     rep.check(rz == [["arg:self.stack", "arg:data.sp", "const:0"]] and hp == ["arg:data.hp"] and len(cps) == 2, "ROLLBACK", "rollback:shape", where,
               "rollback must resize the stack to data.sp with 0, set hp to data.hp and replay stack and heap changes; found resize=%s hp=%s copies=%d" % (rz, hp, len(cps)))
     n, f = fn("collect_rollback_data")
